@@ -20,8 +20,9 @@ VARIABLES impA1, impA2, impB1,  \* sets of imported files
           bKind,                \* "local" | "remote" | "both"
           cCommits,             \* sequence of distinct commit ids of C in the order they were added, from {1,2,3} (id = creation time)
           dupPath,              \* B also provides the path of c1
-          missing               \* a2 imports a path nobody provides
-vars == <<impA1, impA2, impB1, bKind, cCommits, dupPath, missing>>
+          missing,              \* a2 imports a path nobody provides
+          wktVendored           \* B carries its own copy of the well-known type that a1 may import
+vars == <<impA1, impA2, impB1, bKind, cCommits, dupPath, missing, wktVendored>>
 
 SeqsNoRepeat(S, n) == UNION {{s \in [1..k -> S] : \A i, j \in 1..k : i # j => s[i] # s[j]} : k \in 1..n}
 Init == /\ impA1 \in SUBSET {"b1", "c1", "wkt"}
@@ -31,6 +32,7 @@ Init == /\ impA1 \in SUBSET {"b1", "c1", "wkt"}
         /\ cCommits \in SeqsNoRepeat({1, 2, 3}, 3)
         /\ dupPath \in BOOLEAN /\ missing \in BOOLEAN
         /\ ~(dupPath /\ missing)
+        /\ wktVendored \in BOOLEAN /\ (wktVendored => (~dupPath /\ ~missing /\ Len(cCommits) = 1))
 Next == UNCHANGED vars
 Spec == Init /\ [][Next]_vars
 
@@ -39,7 +41,8 @@ Newest == CHOOSE c \in {cCommits[i] : i \in 1..Len(cCommits)} : \A d \in {cCommi
 \* what c1 imports in each commit of C
 ImpC1(commit) == IF commit = 2 THEN {"b1"} ELSE {}
 Imports(f) == CASE f = "a1" -> impA1 [] f = "a2" -> impA2 [] f = "b1" -> impB1 [] f = "c1" -> ImpC1(Newest) [] OTHER -> {}
-OwnerOf(f) == CASE f \in {"a1", "a2"} -> "A" [] f = "b1" -> "B" [] f = "c1" -> "C" [] OTHER -> "none"
+OwnerOf(f) == CASE f \in {"a1", "a2"} -> "A" [] f = "b1" -> "B" [] f = "c1" -> "C"
+                 [] f = "wkt" -> (IF wktVendored THEN "B" ELSE "none") [] OTHER -> "none"
 \* module-level edges
 Edge(m, n) == m # n /\ \E f \in FilesOf[m] : \E g \in Imports(f) : OwnerOf(g) = n
 RECURSIVE ReachFrom(_, _)
@@ -78,5 +81,6 @@ NewestWins == \A i \in 1..Len(cCommits) : cCommits[i] <= Newest
 
 EmitCase == Emit => PrintT(<<"CASE", ToJson(
   [impA1 |-> impA1, impA2 |-> impA2, impB1 |-> impB1, bKind |-> bKind, cCommits |-> cCommits, dupPath |-> dupPath, missing |-> missing,
+   wktVendored |-> wktVendored,
    newest |-> Newest, anyCycle |-> AnyCycle, fromTargets |-> {"A"} \cup ReachFrom({}, "A"), results |-> [m \in Mods |-> Result(m)]])>>)
 =============================================================================
